@@ -86,7 +86,9 @@ Note ==
 Class(ev) == CASE ev \in {"process", "partial", "bad"} -> "proc"
                [] ev \in {"new", "reset"} -> "init"
                [] OTHER -> ev
-Rejected(ev) == ev.res = "err" /\ ev.ev \in {"bad", "set_ratio", "set_chunk"}
+\* a call that returned Err is not an observation: by C12/C13 it changed nothing, and a twin that
+\* never made it (or made a different failing call) must still agree on everything that follows
+Rejected(ev) == ev.res = "err"
 Ob(ev) ==
   IF ev.ev \in {"new", "reset"}
   THEN [cls |-> "init", res |-> ev.res, nin |-> 0, nout |-> 0, dig |-> <<>>, g |-> ev.post]
